@@ -1532,7 +1532,9 @@ def stream_objects(ctx, reqs, pending):
                 so = call(apply_modality_lut, arr, ds)
                 if so[0] == 'ok':
                     ctx.case(second_opinion='apply_modality_lut')
-                    if np.abs(np.asarray(so[1], dtype=float) - np.asarray(res[1], dtype=float)).max() > 1e-9:
+                    rtol = 2.0 ** -18 if np.asarray(res[1]).dtype == np.float32 else 1e-12
+                    a1, a2 = np.asarray(so[1], dtype=float), np.asarray(res[1], dtype=float)
+                    if (np.abs(a1 - a2) > rtol * (1 + np.abs(a1))).any():
                         ctx.fail(case, {'why': "differs from pydicom's apply_modality_lut", 'got': np.asarray(res[1]).tolist(),
                                         'pydicom': np.asarray(so[1]).tolist()}, site='second-opinion/apply_modality_lut')
         else:
